@@ -22,6 +22,26 @@ check(
     "DESIGN.md section 3, C03",
 )
 
+check(
+    "C01",
+    "round-trip monitor on the real parser/printer: parse -> print -> re-parse with field-by-field object comparison, seeded-generation equality, regex-erasure identity",
+    "Every accepted string of the generated archetype corpus (5 constructor levels, whitespace/number variants), of the 173 documented strings and of the "
+    "library's own printed forms (second generation) is taken through parse/print/re-parse; fixed point, object equality (all public fields), seeded "
+    "generation equality (sample) and the erasure identity of generate_string(False) are checked on each. Held on the strings explored, not on all strings.",
+    "Trusts the field reader gbv/oracles/parse.py (public attributes only; System components through _molecules). Inputs are bounded by the generator (DESIGN 2.1).",
+    "DESIGN.md section 3, C01",
+)
+check(
+    "C02",
+    "differential runtime oracle: parsed objects vs the AST the string was printed from and vs RDKit's dummy-atom reading of the same text; complete enumeration of descriptor placements on a fragment core",
+    "Strings are printed from a structured description by an independent printer; the parsed fields (atoms, internal bonds, descriptor symbol/id/weight/"
+    "transitions/attachment atom/bond order, terminals, distribution family+parameters, mixture) are compared with the AST and with RDKit's reading of "
+    "the token in which every descriptor is replaced by a labelled dummy atom. Placements of 1-3 descriptors on 14 core fragments are enumerated completely; "
+    "larger tokens, objects, molecules and systems are sampled.",
+    "Trusts RDKit's SMILES parser as the meaning of 'an atom written at that position' and the 200-line AST printer; their mutual disagreement is reported as a harness bug (exit 2).",
+    "DESIGN.md section 3, C02",
+)
+
 ALL = [f"C{i:02d}" for i in range(1, 21)]
 
 
